@@ -15,6 +15,11 @@ Executable model, core Lean only, of the *argument binding* on the way from a ca
 * the assignments of `_connect_helper` that fill the payloads: `msg2.logger_status = int(logger_status)`, … ,
   `msg2.mod_id = self.module_id`, `msg2.name = self.name`, `msg.logger_status`, `msg.daemon_status`.
 
+* the one place where a *value* is looked at on the way: `Client.__init__` stores as `_name` (what `Client.name`, hence
+  `msg2.name`, returns) the name it was given - unless that name is empty and `module_id` is not 0 and is registered
+  as an `MID_` constant in the message-definition context: then the first registered name of that id
+  (`storedName`, `Wrote`-level: `Spec/ClientEntry.lean initName`).
+
 `bindArgs` is Python's rule for binding actuals to formals (positionals left to right, then keywords, then defaults;
 too many positionals, an unknown keyword, a parameter given twice or not at all are `TypeError` = `none`).  It is
 generic in the type of the things bound, so the same function binds *values* (what a run does) and *symbols* (where a
@@ -179,5 +184,18 @@ def payload {α : Type} (dflt : Val → α) (p : Prog) (e : Entry α) : Option (
       | none => none
     | none => none
   | none => none
+
+/-- the context's `MID` table (`get_context().MID`): registered module names with their ids, in dict order -/
+abbrev Mids := List (String × Int)
+
+/-- `Client.__init__`, "auto-assign a name if module-id is defined": what ends up in `self._name` when the constructor
+is given `module_id` and `name`: the name itself, unless it is empty and the id is not 0: then the first name the
+context registers for that id, if there is one -/
+def storedName (mids : Mids) (modId : Int) (name : String) : String :=
+  if name == "" && modId != 0 then
+    match mids.find? (fun p => p.2 == modId) with
+    | some p => p.1
+    | none => name
+  else name
 
 end Pyrtma.ClientEntry
